@@ -541,10 +541,13 @@ class ASTListener(ModelicaListener):
             if import_list is not None:
                 package_name = import_clause.components.pop()
                 # Append list of names to package_name to get fully qualified name(s)
-                # Skip the comma separators in import_list.children
-                for ident in import_list.children[::2]:
+                # N.B. The import_list rule is recursive: all but the first name are in nested lists
+                import_lists = [import_list]
+                while import_lists:
+                    import_list = import_lists.pop(0)
+                    import_lists.extend(import_list.import_list())
                     qualified_name = package_name.concatenate(
-                        package_name.from_string(ident.getText())
+                        package_name.from_string(import_list.IDENT().getText())
                     )
                     import_clause.components.append(qualified_name)
             elif ctx.getChildCount() > 3:
